@@ -382,6 +382,9 @@ def run(tier, seed):
             ck.violation(key, "%s %s: fault %s(%s) at host command %d (%s) -> %s %s ; allowed %s" % (
                 e["d"], e["k"], e["f"], e["v"], e["at"], e["c"], e["o"], e["x"], sorted(why[4][1]) if len(why) > 4 else "?"),
                 replay=dict(kind="case", driver=e["d"], k=e["k"], at=e["at"], f=e["f"], v=e["v"]))
+    nop = sum(len(b["ev"]) for b in batches if b["slice"]["k"] in OP.OP_KINDS)
+    ck.cover(operation_cases=nop, exchange_cases=ncase - nop if accepted == len(batches) else None,
+             operation_slices=sum(1 for b in batches if b["slice"]["k"] in OP.OP_KINDS))
     ck.cover(traces_validated_against_impl=ncase, slices_accepted=accepted, slices=len(batches),
              trace_states=stats["states"], distinct_outcome_classes=len(classes),
              binding_selftest="changed outcome, changed command name and dropped case all rejected")
@@ -389,7 +392,13 @@ def run(tier, seed):
     ck.sample(dict(mc="DriverErr", tier=tier, distinct=r.distinct))
     ck.assume("chipsets and transports are simulated at frame level (sim/chip_*.py): USB/TTY glue of nfc.clf.transport is not executed",
               "one fault per exchange; the drivers' time module is a virtual clock",
-              "quick tier runs drivers %s; thorough all eight" % (", ".join(QUICK_DRIVERS)),
+              "exchange kinds: quick tier runs drivers %s, thorough all eight; sense()/listen() operation kinds run on all "
+              "eight drivers in both tiers (quick samples status / register values / single communication status flags)" % (
+                  ", ".join(QUICK_DRIVERS)),
+              "operations: the remote device never retries after a fault (a silent air costs the timeout that was asked for); "
+              "an InListPassiveTarget answer that reports no target keeps saying so whatever NbTg is injected",
+              "sense()/listen() outcomes: Target / None / UnsupportedTargetError / IOError; a reported target must carry the "
+              "documented bit rate and attributes also under a fault (TargetIntact)",
               "RC-S380 frame checksums are not verified by nfcpy (outside the C14 statement): Data accepted for BadChecksum/CutTail there",
               "exchange() returning None is accepted only in target mode (documented there), never for an initiator")
     return ck.finish()
